@@ -119,3 +119,223 @@ CONTRACTS["utils:_worker_init"] = dict(
     ensures=[("C17.worker_generator_is_reseeded", "rng_reseeded_from_entropy")],
     make_env=lambda it: (it.ghost.__setitem__("rng_reseeded_from_entropy", False) or {}),
     replay_hook=_replay_workers, defined_props=["C17"], raises={}, raises_props=["C17"])
+
+
+# ---- project._run_sampled_sim (C17): one sampled simulation = a FRESH draw of the parameter set (and program set) followed by runs that
+# use exactly that draw; a refused initialisation (BadInitialization) leads to a NEW draw, not to a re-run of the old one; the source
+# sets are only read (they are never handed to run_sim).  parset.sample / progset.sample / proj.run_sim are ghosts: sample() returns
+# a new object on every call (numbered), run_sim records what it was given and fails on the attempts the ghost Booleans say.
+def _env_sampled(with_progset):
+    def make(it):
+        from pyvc.interp import PyObjV
+        from pyvc import source
+
+        pm = source.load("project")
+        return {"proj": PyObjV("Project", pm, {"name": "proj"}), "parset": PyObjV("ParameterSet", source.load("parameters"), {"name": "source parset"}),
+                "progset": PyObjV("ProgramSet", source.load("programs"), {"name": "source progset"}) if with_progset else None,
+                "progset_instructions": ["instr_a", "instr_b"] if with_progset else [None], "result_names": ["a", "b"] if with_progset else ["default"], "max_attempts": 2,
+                "PAR_DRAWS": [], "PROG_DRAWS": [], "RUNS": [], "ATTEMPT_FAILS": None}
+
+    return make
+
+
+def _ghost_sample(kind):
+    def f(it, *a, **k):
+        from pyvc.interp import PyObjV
+        from pyvc import source
+
+        draws = it.live_env[kind]
+        o = PyObjV("ParameterSet" if kind == "PAR_DRAWS" else "ProgramSet", source.load("parameters" if kind == "PAR_DRAWS" else "programs"), {"name": "draw %d" % len(draws)})
+        draws.append(o)
+        return o
+
+    return f
+
+
+def _ghost_run_sim(it, parset=None, progset=None, progset_instructions=None, result_name=None):
+    from pyvc.interp import _Raise
+
+    env = it.live_env
+    attempt = len(env["PAR_DRAWS"]) - 1
+    env["RUNS"].append({"parset": parset, "progset": progset, "instructions": progset_instructions, "name": result_name, "attempt": attempt})
+    fails = it.ghost_env["FAIL_%d" % attempt]
+    if it.branch(fails):
+        raise _Raise("BadInitialization")
+    return ("result", attempt, result_name)
+
+
+for _wp in (False, True):
+    _n = 2 if _wp else 1
+    CONTRACTS["project:_run_sampled_sim#%s" % ("with_programs" if _wp else "parameters_only")] = dict(
+        schema=schema, make_env=_env_sampled(_wp),
+        ghost_params={"FAIL_0": "bool", "FAIL_1": "bool"},
+        call_stubs={"parset.sample": _ghost_sample("PAR_DRAWS"), "progset.sample": _ghost_sample("PROG_DRAWS"), "proj.run_sim": _ghost_run_sim},
+        raises={"Exception": "FAIL_0 and FAIL_1"}, raises_props=["C17"],
+        ensures=[
+            ("C17.every_attempt_draws_afresh", "len(PAR_DRAWS) == (1 if not FAIL_0 else 2)" + (" and len(PROG_DRAWS) == len(PAR_DRAWS)" if _wp else "")),
+            ("C17.runs_use_the_draw_of_their_own_attempt_never_the_source",
+             "all(r['parset'] is PAR_DRAWS[r['attempt']] and r['parset'] is not parset for r in RUNS)" + (" and all(r['progset'] is PROG_DRAWS[r['attempt']] and r['progset'] is not progset for r in RUNS)" if _wp else "")),
+            ("C17.the_results_returned_come_from_one_draw", "len(result) == %d and all(result[i][1] == len(PAR_DRAWS) - 1 for i in range(%d))" % (_n, _n)),
+        ] + ([("C17.each_instruction_is_run_under_its_own_result_name", "result[0][2] == 'a' and result[1][2] == 'b' and RUNS[-2]['instructions'] == 'instr_a' and RUNS[-1]['instructions'] == 'instr_b'")] if _wp else []),
+        defined_props=["C17"])
+
+
+def _replay_sampled(model, contract):
+    """replay on the udt demo project with uncertainty entered on one parameter: the real _run_sampled_sim is called twice with a spy
+    around Project.run_sim; the parameter set it hands over must be a draw (not the source) and the two draws must differ"""
+    import logging
+    import warnings
+
+    import numpy as np
+    import atomica as at
+    from atomica.project import _run_sampled_sim
+
+    warnings.filterwarnings("ignore")
+    at.logger.setLevel(logging.ERROR)
+    P = at.demo("udt", do_run=False)
+    ps = P.parsets[0]
+    par = [p for p in ps.all_pars() if any(ts.has_data for ts in p.ts.values())][0]
+    pop = [k for k, ts in par.ts.items() if ts.has_data][0]
+    par.ts[pop].sigma = 0.1 * abs(float(np.ravel(par.ts[pop].vals if par.ts[pop].has_time_data else [par.ts[pop].assumption])[0]) or 1.0)
+    seen = []
+    orig = P.run_sim
+
+    def spy(parset=None, **kw):
+        seen.append(parset)
+        return orig(parset=parset, **kw)
+
+    P.run_sim = spy
+    for _ in range(2):
+        _run_sampled_sim(P, ps, None, [None], ["default"])
+    bad = []
+    if any(s is ps for s in seen):
+        bad.append("the source parameter set itself was simulated (no draw)")
+    else:
+        def value(s):
+            ts = s.get_par(par.name).ts[pop]
+            return float(np.ravel(ts.vals if ts.has_time_data else [ts.assumption])[0])
+
+        if len(seen) == 2 and value(seen[0]) == value(seen[1]):
+            bad.append("two sampled simulations used the same value %r of %s/%s although its uncertainty is not zero" % (value(seen[0]), par.name, pop))
+    return dict(verdict="violates" if bad else "holds", detail="; ".join(bad) or "each sampled simulation ran on its own draw", prestate=dict(project="udt", uncertain_parameter=par.name, population=pop))
+
+
+for _k in list(CONTRACTS):
+    if _k.startswith("project:_run_sampled_sim"):
+        CONTRACTS[_k]["replay_hook"] = _replay_sampled
+
+
+# ---- ParameterSet.sample / Parameter.sample (C17): sampling works on a deep copy -- every parameter OF THE COPY is perturbed exactly once,
+# with the caller's `constant` flag, and the copy is returned; the source and its parameters are not perturbed.  Parameter.sample
+# replaces every population's series by that series' own sample.  (TimeSeries.sample is under contract in timeseries.py; here it is
+# a ghost that returns a tagged new series.)
+def _env_parset_sample(it):
+    from pyvc.interp import PyObjV
+    from pyvc import source
+
+    pm = source.load("parameters")
+    mk = lambda n: PyObjV("Parameter", pm, {"name": n, "ts": {}, "SAMPLED": []})
+    p, tr, ia = mk("p"), mk("transfer"), mk("interaction")
+    self = PyObjV("ParameterSet", pm, {"name": "source", "pars": {"p": p}, "transfers": {"age": {"pop": tr}}, "interactions": {"w": {"pop": ia}}})
+    return {"self": self, "SRC": [p, tr, ia]}
+
+
+def _ghost_all_pars(it):
+    ps = it.stub_receiver
+    return list(ps.fields["pars"].values()) + [q for d in list(ps.fields["transfers"].values()) + list(ps.fields["interactions"].values()) for q in d.values()]
+
+
+def _ghost_par_sample(it, constant):
+    it.stub_receiver.fields["SAMPLED"].append(constant)
+
+
+CONTRACTS["parameters:ParameterSet.sample"] = dict(
+    schema=schema, make_env=_env_parset_sample, params={"constant": "bool"},
+    call_stubs={"new.all_pars": _ghost_all_pars, "par.sample": _ghost_par_sample},
+    ensures=[
+        ("C17.sampling_returns_a_copy", "result is not self and result.pars['p'] is not SRC[0] and result.transfers['age']['pop'] is not SRC[1] and result.interactions['w']['pop'] is not SRC[2]"),
+        ("C17.every_parameter_of_the_copy_is_perturbed_exactly_once_with_the_callers_flag",
+         "result.pars['p'].SAMPLED == [constant] and result.transfers['age']['pop'].SAMPLED == [constant] and result.interactions['w']['pop'].SAMPLED == [constant]"),
+        ("C17+C08.the_source_is_not_perturbed", "len(SRC[0].SAMPLED) == 0 and len(SRC[1].SAMPLED) == 0 and len(SRC[2].SAMPLED) == 0 and self.pars['p'] is SRC[0]"),
+    ],
+    defined_props=["C17", "C08"])
+
+
+def _env_par_sample(it):
+    from pyvc.interp import PyObjV
+    from pyvc import source
+
+    um = source.load("utils")
+    ts = lambda n: PyObjV("TimeSeries", um, {"t": [], "vals": [], "units": n, "assumption": None, "sigma": None, "_sampled": False})
+    a, b = ts("a"), ts("b")
+    return {"self": PyObjV("Parameter", source.load("parameters"), {"name": "p", "ts": {"adults": a, "children": b}}), "A": a, "B": b}
+
+
+def _ghost_ts_sample(it, constant):
+    from pyvc.interp import PyObjV
+
+    src = it.stub_receiver
+    return PyObjV("TimeSeries", src.module, {"units": src.fields["units"], "SAMPLE_OF": src, "CONSTANT": constant, "_sampled": True})
+
+
+CONTRACTS["parameters:Parameter.sample"] = dict(
+    schema=schema, make_env=_env_par_sample, params={"constant": "bool"},
+    call_stubs={"ts.sample": _ghost_ts_sample},
+    ensures=[("C17.each_population_gets_the_sample_of_its_own_series", "len(self.ts) == 2 and self.ts['adults'].SAMPLE_OF is A and self.ts['children'].SAMPLE_OF is B and self.ts['adults'].CONSTANT == constant and self.ts['children'].CONSTANT == constant")],
+    defined_props=["C17"])
+
+
+def _env_progset_sample(it):
+    from pyvc.interp import PyObjV
+    from pyvc import source
+
+    pm = source.load("programs")
+    prog = PyObjV("Program", pm, {"name": "prog", "SAMPLED": []})
+    cov = PyObjV("Covout", pm, {"par": "p", "pop": "adults", "SAMPLED": []})
+    self = PyObjV("ProgramSet", pm, {"name": "source", "programs": {"prog": prog}, "covouts": {("p", "adults"): cov}})
+    return {"self": self, "PROG": prog, "COV": cov}
+
+
+def _ghost_mark_sample(it, *a):
+    it.stub_receiver.fields["SAMPLED"].append(a[0] if a else "outcomes")
+
+
+CONTRACTS["programs:ProgramSet.sample"] = dict(
+    schema=schema, make_env=_env_progset_sample, params={"constant": "bool"},
+    call_stubs={"prog.sample": _ghost_mark_sample, "covout.sample": _ghost_mark_sample},
+    ensures=[
+        ("C17.sampling_returns_a_copy", "result is not self and result.programs['prog'] is not PROG and result.covouts['p', 'adults'] is not COV"),
+        ("C17.every_program_and_every_outcome_entry_of_the_copy_is_perturbed_exactly_once", "result.programs['prog'].SAMPLED == [constant] and result.covouts['p', 'adults'].SAMPLED == ['outcomes']"),
+        ("C17+C08.the_source_is_not_perturbed", "len(PROG.SAMPLED) == 0 and len(COV.SAMPLED) == 0 and self.programs['prog'] is PROG and self.covouts['p', 'adults'] is COV"),
+    ],
+    defined_props=["C17", "C08"])
+
+
+_PROG_SERIES = ["spend_data", "unit_cost", "capacity_constraint", "saturation", "coverage"]
+
+
+def _env_prog_sample(it):
+    from pyvc.interp import PyObjV
+    from pyvc import source
+
+    um = source.load("utils")
+    series = {n: PyObjV("TimeSeries", um, {"t": [], "vals": [], "units": n, "assumption": None, "sigma": None, "_sampled": False}) for n in _PROG_SERIES}
+    fields = dict(series)
+    fields["name"] = "prog"
+    env = {"self": PyObjV("Program", source.load("programs"), fields)}
+    env.update({"OLD_" + n: s for n, s in series.items()})
+    return env
+
+
+def _ghost_series_sample(it, constant):
+    from pyvc.interp import PyObjV
+
+    src = it.stub_receiver
+    return PyObjV("TimeSeries", src.module, {"units": src.fields["units"], "SAMPLE_OF": src, "CONSTANT": constant, "_sampled": True})
+
+
+CONTRACTS["programs:Program.sample"] = dict(
+    schema=schema, make_env=_env_prog_sample, params={"constant": "bool"},
+    call_stubs={"self.%s.sample" % n: _ghost_series_sample for n in _PROG_SERIES},
+    ensures=[("C17.each_series_of_the_program_becomes_its_own_sample", " and ".join("self.%s.SAMPLE_OF is OLD_%s and self.%s.CONSTANT == constant" % (n, n, n) for n in _PROG_SERIES))],
+    defined_props=["C17"])
